@@ -806,6 +806,12 @@ func (v *Visitor) addNext(s *df.AnalyzerState,
 	sort.Strings(nextNodeAccessPaths)
 	if len(edgeInfo.RelPath) == 0 || (len(edgeInfo.RelPath) == 1 && edgeInfo.RelPath[""][""]) {
 		nextNodeAccessPaths = cur.AccessPaths
+		// The edges inside a pre-summarized function (predefined summary, dataflow contract) have no path information:
+		// an access path relative to a parameter means nothing on the result or on another parameter, and where the
+		// data lands in the destination is unknown.
+		if g := cur.Node.Graph(); g != nil && g.IsPreSummarized && nextNodeWithTrace.Node.Graph() == g {
+			nextNodeAccessPaths = []string{""}
+		}
 	}
 	// No matching access paths for this edge
 	if len(nextNodeAccessPaths) == 0 {
